@@ -56,6 +56,12 @@ PROFILES = {
     "keepalive": {"time": True, "ska": [0, 0, 0, 3, 6, 8], "p_no_pingresp": 0.15, "w_poll": 16, "w_recv": 4, "p_cancel": 0.02,
                   "calls": 30, "p_delay": 0.7, "p_fault": 0.0, "w_pub0": 1, "w_pub1": 1, "w_pub2": 0, "w_sub": 0, "w_unsub": 0,
                   "w_disconnect": 0, "p_drop": 0.0, "p_inbound": 0.1, "p_broker_disconnect": 0.0},
+    # owed acknowledgements half-written when the poll is cancelled, then QoS 0 traffic
+    "ackcancel": {"p_inbound": 0.7, "p_cancel": 0.3, "p_pend": 0.5, "p_partial": 0.7, "p_byte": 0.4, "w_pub0": 8, "w_poll": 10,
+                  "w_recv": 3, "w_pub1": 1, "w_pub2": 1, "w_sub": 0, "w_unsub": 0, "w_disconnect": 0, "calls": 30},
+    # inbound QoS 2 exchanges across connection loss, lost broker sessions and refused CONNACKs
+    "sessions": {"p_inbound": 0.7, "p_bad_connack": 0.3, "p_session_loss": 0.4, "p_drop": 0.15, "w_poll": 12, "w_recv": 3,
+                 "p_dead_call": 0.6, "calls": 40, "max_conns": 10},
     "wrap": {"w_pub1": 8, "w_pub2": 8, "w_sub": 4, "w_unsub": 3, "rm": [1, 2, 3], "calls": 60, "p_session_loss": 0.02,
              "p_stale": 0.0, "p_setid": 0.7, "p_drop": 0.12, "p_fail_ack": 0.0, "max_conns": 10},
 }
@@ -75,6 +81,8 @@ COMMON = [
     ("keepalive", TIME_CFGS, 39, 650),
     ("stall", [TIME_CFGS[2], TIME_CFGS[4], TIME_CFGS[6], TIME_CFGS[10]], 32, 320),
     ("wrap", [BASE_CFGS[4], BASE_CFGS[0]], 30, 300),
+    ("ackcancel", BASE_CFGS[:2], 40, 400),
+    ("sessions", BASE_CFGS[:3], 45, 450),
 ]
 
 # Edge-cover replay of the specification's state graph: (config, paths sampled in quick tier; thorough = all)
